@@ -4,6 +4,7 @@
 
 mod field;
 mod frost;
+mod gfb;
 mod group;
 mod hash;
 mod lms;
@@ -68,6 +69,7 @@ fn main() {
         }
         "xdh" => sig::run_xdh(&mut tr, &mut rng, num("n", 40)),
         "eddsa" => sig::run_eddsa(&mut tr, &mut rng, &get("curve", "ed25519"), num("honest", 12), num("adv", 24)),
+        "gfb" => gfb::run(&mut tr, &mut rng, num("scripts", 10), num("len", 40)),
         "trunc" => sig::run_trunc(&mut tr, &mut rng, &get("what", "ed25519"), num("n", 10), num("part", 0), num("parts", 1)),
         "jq" => sig::run_jq(&mut tr, &mut rng, &get("curve", "jq255e"), num("honest", 6), num("adv", 3)),
         "ecdsa" => sig::run_ecdsa(&mut tr, &mut rng, &get("curve", "p256"), num("honest", 12), num("adv", 12)),
